@@ -265,7 +265,7 @@ def main(argv=None) -> int:
         with open(rp, "w") as f:
             json.dump(
                 dict(property=prop, signature=sig, what=v["what"],
-                     detail=v.get("detail"), case=case, seed=seed),
+                     detail=v.get("detail"), case=v.get("replay_case", case), seed=seed),
                 f, indent=1, sort_keys=True, default=_jdefault,
             )
         confirmed = True
